@@ -19,7 +19,6 @@ import subprocess
 import sys
 import time
 import traceback
-from concurrent.futures import ProcessPoolExecutor
 
 ENGINE_VERSION = 3
 
@@ -170,6 +169,92 @@ def guarded_run(machine, case, guard_s=None):
     return out
 
 
+# --------------------------------------------------------------------------- process isolation
+#
+# Every chunk of runs, and every evaluation made by the minimiser, executes in a child
+# forked from the parent, and the parent itself never executes library code beyond the JIT
+# warm-up.  A chunk's result is therefore a pure function of (VERIF_SEED, chunk bounds): it
+# cannot depend on which chunks some pool worker happened to process before (process-global
+# state inside the library - caches, counters, the global PRNG - would otherwise leak from
+# run to run in a scheduling-dependent way and break replay).
+
+
+def _child_main(fn, arg, conn):
+    try:
+        res = ("ok", fn(arg))
+    except BaseException as exc:  # noqa: BLE001
+        res = ("err", "".join(traceback.format_exception(exc))[-3000:])
+    try:
+        conn.send(res)
+    finally:
+        conn.close()
+        os._exit(0)
+
+
+def run_forked(fn, args_list, workers, timeout_each=None):
+    """Apply ``fn`` to every element of ``args_list``, each in its own forked child, at most
+    ``workers`` at a time.  Returns (results in order with failed ones dropped, error or None)."""
+    import multiprocessing.connection as mpc
+
+    ctx = mp.get_context("fork")
+    pending = list(enumerate(args_list))
+    pending.reverse()
+    live = {}  # conn -> (index, process, started)
+    results = {}
+    error = None
+    while pending or live:
+        while pending and len(live) < workers:
+            idx, arg = pending.pop()
+            parent_conn, child_conn = ctx.Pipe(duplex=False)
+            sys.stdout.flush()
+            sys.stderr.flush()
+            proc = ctx.Process(target=_child_main, args=(fn, arg, child_conn))
+            proc.start()
+            child_conn.close()
+            live[parent_conn] = (idx, proc, time.time())
+        ready = mpc.wait(list(live), timeout=1.0)
+        for conn in ready:
+            idx, proc, _ = live.pop(conn)
+            try:
+                status, payload = conn.recv()
+                if status == "ok":
+                    results[idx] = payload
+                else:
+                    error = error or ("child for job %d raised:\n%s" % (idx, payload))
+            except (EOFError, OSError):
+                error = error or ("child for job %d died without a result (hang guard, OOM or crash)" % idx)
+            conn.close()
+            proc.join(timeout=10)
+        if timeout_each is not None:
+            now = time.time()
+            for conn, (idx, proc, started) in list(live.items()):
+                if now - started > timeout_each:
+                    proc.kill()
+                    live.pop(conn)
+                    conn.close()
+                    error = error or ("child for job %d exceeded %.0f s" % (idx, timeout_each))
+    return [results[i] for i in sorted(results)], error
+
+
+def _eval_cases(arg):
+    """Run a list of cases sequentially in this (forked) process; report the last outcome."""
+    machine = _MACHINE
+    cases, guard_s = arg
+    out = None
+    for c in cases:
+        out = guarded_run(machine, c, guard_s=guard_s)
+    return {"violation": out.violation, "harness_error": out.harness_error}
+
+
+def eval_isolated(machine, cases, guard_s):
+    global _MACHINE
+    _MACHINE = machine
+    res, err = run_forked(_eval_cases, [(cases, guard_s)], 1, timeout_each=guard_s * max(1, len(cases)) + 60)
+    if err or not res:
+        return {"violation": None, "harness_error": err or "no result"}
+    return res[0]
+
+
 # --------------------------------------------------------------------------- batch
 
 _MACHINE = None  # set in the parent before forking
@@ -243,7 +328,7 @@ def _run_chunk(args):
         if out.violation is not None:
             agg["n_violating_runs"] += 1
             if len(agg["violations"]) < 12:
-                agg["violations"].append({"run": i, "run_seed": run_seed, "case": case, "violation": out.violation})
+                agg["violations"].append({"run": i, "run_seed": run_seed, "case": case, "violation": out.violation, "chunk_start": start})
         if len(agg["samples"]) < 1 and out.nontrivial and i % 7 == 0:
             agg["samples"].append({"run": i, "run_seed": run_seed, "case": machine.sample_repr(case)})
     faulthandler.cancel_dump_traceback_later()
@@ -278,16 +363,7 @@ def run_batch(machine, tier, verif_seed, workers, runs_override=None, want_diges
     merged = None
     pool_error = None
     t0 = time.time()
-    if workers <= 1:
-        results = [_run_chunk(j) for j in jobs]
-    else:
-        results = []
-        try:
-            with ProcessPoolExecutor(max_workers=workers, mp_context=mp.get_context("fork")) as ex:
-                for r in ex.map(_run_chunk, jobs):
-                    results.append(r)
-        except Exception as exc:  # BrokenProcessPool: a worker died (hang guard, OOM, crash)
-            pool_error = "worker pool failed: %r" % (exc,)
+    results, pool_error = run_forked(_run_chunk, jobs, max(1, workers))
     wall = time.time() - t0
     merged = {
         "runs": 0,
@@ -316,7 +392,10 @@ def run_batch(machine, tier, verif_seed, workers, runs_override=None, want_diges
             for k, v in r[key].items():
                 bump(merged[key], k, v)
         merged["hists"].update(r["hists"])
-        merged["states"].update(r["states"])
+        if len(merged["states"]) < 3_000_000:
+            merged["states"].update(r["states"])
+        else:
+            merged["states_capped"] = True
         merged["violations"].extend(r["violations"])
         merged["harness_errors"].extend(r["harness_errors"])
         if r["digests"]:
@@ -341,19 +420,43 @@ def run_batch(machine, tier, verif_seed, workers, runs_override=None, want_diges
 # --------------------------------------------------------------------------- minimisation
 
 
-def _same(machine, case, clause, budget, guard_s):
+def _same(machine, case, clause, budget, guard_s, prelude=()):
     if budget[0] <= 0:
         return False
     budget[0] -= 1
-    out = guarded_run(machine, case, guard_s=guard_s)
-    if out.harness_error:
+    res = eval_isolated(machine, list(prelude) + [case], guard_s)
+    if res["harness_error"]:
         return False
-    return out.violation is not None and out.violation["clause"] == clause
+    return res["violation"] is not None and res["violation"]["clause"] == clause
 
 
-def minimise(machine, case, clause, max_evals=1200, guard_s=10.0):
+def ddmin_list(items, test, budget):
+    """Classic ddmin over a list; ``test(sublist)`` is True when the failure persists."""
+    n = 2
+    while len(items) >= 2 and budget[0] > 0:
+        chunk = max(1, len(items) // n)
+        subsets = [items[i : i + chunk] for i in range(0, len(items), chunk)]
+        reduced = False
+        for idx in range(len(subsets)):
+            complement = [o for j, s_ in enumerate(subsets) if j != idx for o in s_]
+            if test(complement):
+                items = complement
+                n = max(n - 1, 2)
+                reduced = True
+                break
+        if not reduced:
+            if n >= len(items):
+                break
+            n = min(len(items), n * 2)
+    if len(items) == 1 and budget[0] > 0 and test([]):
+        items = []
+    return items
+
+
+def minimise(machine, case, clause, max_evals=1200, guard_s=10.0, prelude=()):
     """ddmin over the operation list, then machine-specific shrinking of
-    arguments and world, keeping only candidates that fail with the same clause."""
+    arguments and world, keeping only candidates that fail with the same clause.
+    Every evaluation runs in a freshly forked child (``prelude`` cases first)."""
     budget = [max_evals]
     case = json.loads(json.dumps(case))
     ops = case.get("ops", [])
@@ -364,25 +467,7 @@ def minimise(machine, case, clause, max_evals=1200, guard_s=10.0):
         return c
 
     # ---- ddmin
-    n = 2
-    while len(ops) >= 2 and budget[0] > 0:
-        chunk = max(1, len(ops) // n)
-        subsets = [ops[i : i + chunk] for i in range(0, len(ops), chunk)]
-        reduced = False
-        for idx in range(len(subsets)):
-            complement = [o for j, s in enumerate(subsets) if j != idx for o in s]
-            if complement and _same(machine, with_ops(complement), clause, budget, guard_s):
-                ops = complement
-                n = max(n - 1, 2)
-                reduced = True
-                break
-        if not reduced:
-            if n >= len(ops):
-                break
-            n = min(len(ops), n * 2)
-    # try the empty and singleton lists too
-    if len(ops) == 1 and _same(machine, with_ops([]), clause, budget, guard_s):
-        ops = []
+    ops = ddmin_list(ops, lambda sub: _same(machine, with_ops(sub), clause, budget, guard_s, prelude), budget)
     case = with_ops(ops)
 
     # ---- machine-specific shrink passes (greedy, restart on success)
@@ -393,11 +478,14 @@ def minimise(machine, case, clause, max_evals=1200, guard_s=10.0):
             for cand in machine.shrink(case):
                 if budget[0] <= 0:
                     break
-                if _same(machine, cand, clause, budget, guard_s):
+                if _same(machine, cand, clause, budget, guard_s, prelude):
                     case = json.loads(json.dumps(cand))
                     improved = True
                     break
-    out = guarded_run(machine, case, guard_s=guard_s)
+    res = eval_isolated(machine, list(prelude) + [case], guard_s)
+    out = Outcome()
+    out.violation = res["violation"]
+    out.harness_error = res["harness_error"]
     return case, out, max_evals - budget[0]
 
 
@@ -436,7 +524,7 @@ def replay_dir(pid):
     return d
 
 
-def write_replay(pid, verif_seed, tier, item, min_case, min_out, evals):
+def write_replay(pid, verif_seed, tier, item, min_case, min_out, evals, prelude=(), note=""):
     sig = "%016x" % h64((min_out.violation["clause"], sorted(min_out.violation["facts"].items())))
     path = os.path.join(replay_dir(pid), "%s-seed%d-run%d-%s.json" % (pid, verif_seed, item["run"], sig[:10]))
     doc = {
@@ -451,6 +539,8 @@ def write_replay(pid, verif_seed, tier, item, min_case, min_out, evals):
         "original_ops": len(item["case"].get("ops", [])),
         "minimised_ops": len(min_case.get("ops", [])),
         "minimiser_evaluations": evals,
+        "note": note,
+        "prelude": list(prelude),
         "case": min_case,
     }
     with open(path, "w") as f:
@@ -483,7 +573,11 @@ def replay_in_fresh_process(check_path, pid, path):
 
 
 def write_evidence(machine, tier, verif_seed, merged, n_reported, known_matched, wall_total):
-    path = os.path.join(VERIF_DIR, "evidence", machine.PID + ".json")
+    ev_dir = os.path.join(VERIF_DIR, "evidence")
+    if os.path.abspath(os.environ.get("VERIF_REPO", "/repo")) != "/repo":
+        # a scratch copy (mutant / seeded change) is being checked: never touch the real evidence
+        ev_dir = os.path.join(VERIF_DIR, "scratch", "evidence-other-tree")
+    path = os.path.join(ev_dir, machine.PID + ".json")
     os.makedirs(os.path.dirname(path), exist_ok=True)
     distinct = len(merged["hists"])
     rule = machine.RULE
@@ -518,7 +612,7 @@ def write_evidence(machine, tier, verif_seed, merged, n_reported, known_matched,
             },
             "faults_fired": dict(sorted(merged["faults"].items())),
             "probes": dict(sorted(merged["probes"].items())),
-            "states_reached": {"count": len(merged["states"]), "measure": machine.STATE_MEASURE},
+            "states_reached": {"count": len(merged["states"]), "measure": machine.STATE_MEASURE + ("; counting stopped at the 3,000,000 cap (lower bound)" if merged.get("states_capped") else "")},
             "seam_engagement": dict(sorted(merged["seams"].items())),
             "real_components": machine.REAL,
             "stubbed_components": machine.STUBBED,
@@ -563,21 +657,55 @@ def check_property(machine, tier, verif_seed, workers, check_path, runs_override
     for v in sorted(merged["violations"], key=lambda x: x["run"]):
         groups.setdefault(group_key(v), v)
     seen_min_sigs = set()
+    arms = merged["arms"]
     for gk, item in list(groups.items())[:max_groups]:
-        min_case, min_out, evals = minimise(machine, item["case"], item["violation"]["clause"])
-        if min_out.violation is None or min_out.harness_error:
-            # could not re-establish in-process: determinism problem in the harness
-            harness.append({"run": item["run"], "error": "violation did not reproduce in-process: %r" % (item["violation"],)})
+        clause = item["violation"]["clause"]
+        attempts = []
+        # (a) minimised single case; (b) the original case as generated; (c) the case preceded
+        # by the earlier runs of its chunk (state that the library carries from call to call at
+        # process level needs that history), with the prelude minimised too
+        min_case, min_out, evals = minimise(machine, item["case"], clause)
+        if min_out.violation is not None and not min_out.harness_error:
+            attempts.append((min_case, min_out, evals, [], "minimised"))
+        orig = json.loads(json.dumps(item["case"]))
+        o_out = Outcome()
+        o_out.violation = item["violation"]
+        attempts.append((orig, o_out, 0, [], "not minimised: the minimised form did not reproduce in isolation"))
+        done = False
+        failures = []
+        for case_, out_, evals_, prelude_, note_ in attempts:
+            path = write_replay(machine.PID, verif_seed, tier, item, case_, out_, evals_, prelude_, note_)
+            ok, got_clause, output = replay_in_fresh_process(check_path, machine.PID, path)
+            if ok and got_clause == clause:
+                done = (path, out_)
+                break
+            failures.append("replay %s (%s): got %r" % (path, note_, got_clause))
+            try:
+                os.unlink(path)
+            except OSError:
+                pass
+        if not done and item["run"] > item["chunk_start"]:
+            prelude = [make_case(machine, verif_seed, tier, arms, j)[1] for j in range(item["chunk_start"], item["run"])]
+            res = eval_isolated(machine, prelude + [orig], 30.0)
+            if res["violation"] is not None and res["violation"]["clause"] == clause:
+                budget = [120]
+                prelude = ddmin_list(prelude, lambda sub: _same(machine, orig, clause, budget, 30.0, sub), budget)
+                p_case, p_out, p_evals = minimise(machine, orig, clause, max_evals=300, prelude=prelude)
+                if p_out.violation is None:
+                    p_case, p_out = orig, o_out
+                path = write_replay(machine.PID, verif_seed, tier, item, p_case, p_out, p_evals + 120 - budget[0], prelude, "needs the %d earlier run(s) in `prelude` executed first in the same process" % len(prelude))
+                ok, got_clause, output = replay_in_fresh_process(check_path, machine.PID, path)
+                if ok and got_clause == clause:
+                    done = (path, p_out)
+                else:
+                    failures.append("replay %s (with prelude): got %r" % (path, got_clause))
+        if not done:
+            harness.append({"run": item["run"], "error": "violation %r of run %d could not be reproduced in a fresh interpreter:\n  %s" % (item["violation"], item["run"], "\n  ".join(failures))})
             continue
-        sig = (min_out.violation["clause"], tuple(sorted((k, repr(x)) for k, x in min_out.violation["facts"].items())))
-        path = write_replay(machine.PID, verif_seed, tier, item, min_case, min_out, evals)
-        ok, clause, output = replay_in_fresh_process(check_path, machine.PID, path)
-        if not ok or clause != min_out.violation["clause"]:
-            harness.append(
-                {"run": item["run"], "error": "replay %s did not reproduce in a fresh interpreter (got %r)\n%s" % (path, clause, output[-1500:])}
-            )
-            continue
-        k = match_known(machine.PID, min_out.violation, known)
+        path, v_out = done
+        viol = v_out.violation
+        sig = (viol["clause"], tuple(sorted((k, repr(x)) for k, x in viol["facts"].items())))
+        k = match_known(machine.PID, viol, known)
         if k is not None:
             line = "KNOWN-FINDING: property=%s %s [%s] replay=%s" % (machine.PID, k["description"], k["finding_id"], path)
             if k["finding_id"] not in [x[0] for x in known_lines]:
@@ -586,7 +714,7 @@ def check_property(machine, tier, verif_seed, workers, check_path, runs_override
         if sig in seen_min_sigs:
             continue
         seen_min_sigs.add(sig)
-        reported.append((path, min_out.violation))
+        reported.append((path, viol))
 
     wall_total = time.time() - t0
     ev = write_evidence(machine, tier, verif_seed, merged, len(reported), [k for k, _ in known_lines], wall_total)
@@ -631,6 +759,8 @@ def replay_file(machine, path, as_json=False):
     with open(path) as f:
         doc = json.load(f)
     case = doc["case"]
+    for pre in doc.get("prelude", []):
+        guarded_run(machine, pre, guard_s=60.0)
     out = guarded_run(machine, case, guard_s=60.0)
     if out.harness_error:
         print("HARNESS-ERROR during replay:\n" + out.harness_error, file=sys.stderr)
